@@ -123,7 +123,7 @@ class C14:
                    'no thread interleavings: kernpy promises no thread safety and C14 does not quantify over schedules']
     PROBES = ['natural_raise', 'raise_mid_export', 'interrupt_delivered', 'memerr_delivered', 'range_inside_split', 'options_object_reused',
               'doc_with_error_tokens', 'io_fault_on_dump', 'compared_with_fresh', 'background_ops', 'graph_compared', 'two_imports_battery',
-              'dump_compared', 'args_checked', 'caller_edited_a_result', 'reentrant_callback_delivered', 'argument_object_reused', 'reference_deferred']
+              'dump_compared', 'args_checked', 'caller_edited_a_result', 'reentrant_callback_delivered', 'argument_object_reused', 'reference_deferred', 'target_clobbered_between_two_dumps']
 
     # ================================================================ plan
     def gen_plan(self, seed, index, tier):
@@ -175,7 +175,9 @@ class C14:
             elif kind == 'export_reused':
                 op = {'op': 'export_reused', 'opts': gen_dumps_opts(rng, raising_bias=0.1)}
             elif kind == 'dump':
-                op = {'op': 'dump', 'opts': gen_dumps_opts(rng, raising_bias=0.1), 'name': rng.choice(['o.krn', 'sub/o.krn', 'a/b/c.ekrn'])}
+                op = {'op': 'dump', 'opts': gen_dumps_opts(rng, raising_bias=0.1), 'name': rng.choice(['o.krn', 'sub/o.krn', 'a/b/c.ekrn']),
+                      # the same dump twice, the file replaced by someone else in between: the second one must write again
+                      'clobber_then_again': rng.random() < 0.3}
             else:
                 op = {'op': 'graph', 'to': rng.choice(['file', 'file', 'stdout'])}
             if faulty and kind in ('dumps', 'query', 'export_reused', 'graph') and frng.random() < 0.22:
@@ -388,6 +390,10 @@ class C14:
                     kp.dump(d, path, **kw)
                 finally:
                     check_args(kw, dumps_kwargs(op['opts']), k, side)
+                if side == 'L' and op.get('clobber_then_again'):
+                    fs.put(path, b'SOMEONE ELSE WROTE THIS\n')
+                    bump(probes, 'target_clobbered_between_two_dumps')
+                    kp.dump(d, path, **dumps_kwargs(op['opts']))
                 return fs.get(path)
             if k == 'graph':
                 if op['to'] == 'stdout':
